@@ -374,7 +374,13 @@ func genHist(rng *hx.Rng, n int) []hist.Op {
 			if c == 0 {
 				c = 1
 			}
-			op(rng.Pick([]string{"store", "uidstore"}), b, strconv.Itoa(1+rng.Intn(c)), "add", "0", rng.Pick([]string{"Junk", "NonJunk"}))
+			// the Junk / NonJunk keywords move the message; over several messages at once the mailbox is renumbered while the
+			// command runs, and the notices carry the numbers of the moment (non-silent in half of the cases)
+			target := strconv.Itoa(1 + rng.Intn(c))
+			if rng.Chance(45) {
+				target = set(b)
+			}
+			op(rng.Pick([]string{"store", "uidstore"}), b, target, "add", rng.Pick([]string{"0", "1"}), rng.Pick([]string{"Junk", "NonJunk"}))
 		}
 	}
 	return ops
@@ -541,7 +547,7 @@ func histories(o *hx.Opts, rep *hx.Report, w *world.World, rng *hx.Rng) {
 				}
 			}
 			if !silent && fmt.Sprint(view) != fmt.Sprint(after) {
-				// class predicate of finding C09-F2: one STORE added Junk/NonJunk to two or more messages
+				// (once the class predicate of a finding about multi-message Junk stores; since repair 89bd974 an ordinary violation)
 				what := fmt.Sprintf("%q: client view after applying the EXPUNGE notices %v, server listing %v", op.Human(), view, after)
 				h.Rep.Violate("impl-violation", "client replay", what, replay(h))
 			}
